@@ -214,7 +214,8 @@ def rule_r4(facts, rep, rid="C14-R4"):
                 key = "%s|Url::%s|%d" % (f.def_, nm, i)
                 c = ctx(f)
                 # audited: the fallback of url_to_key for non-file urls (only reached when to_file_path failed)
-                fallback = f.def_.endswith("BasePath::url_to_key") and any(p.get("k") == "match" for p in c.parents(x))
+                from .common import on_absent_edge
+                fallback = f.def_.endswith("BasePath::url_to_key") and on_absent_edge(c, x, "Url::to_file_path")
                 if fallback:
                     rep.ok(rid, key, "audited fallback: only on the arm where Url::to_file_path gave no path", loc(f, x), nontrivial=False)
                 else:
